@@ -653,6 +653,7 @@ func c10Params(c *Ctx) {
 	c.R.Check(same, "R-params-keys", "NotificationParams special members", c.Pos(T.Obj().Pos()), sprintf("both directions single out %v", m),
 		sprintf("NotificationParams.MarshalJSON singles out %v but UnmarshalJSON %v: _meta / additional fields do not round-trip", m, u))
 	c.R.Min("R-params-keys", 1)
+	c10ParamsWhole(c)
 }
 
 // c10StreamingType: the methods of T that take an http.ResponseWriter stream their answer (they flush the writer, or
